@@ -196,6 +196,12 @@ def gen_config(rng, desc, malformed_cfg=0.06):
         if n != "default":
             # a node whose name starts with % is identified through its label (Graphviz anonymises the id)
             cfg["node"][n] = pick(rng, {k: v for k, v in NODE_POOL.items() if k != "label" or not n.startswith("%")}, 1, 4)
+    if rng.random() < 0.35:
+        # the order in which the caller's dict lists its entries (a name entry before the kind entry it refines, `default` last) is not
+        # part of the configuration: precedence is default < kind < name whatever the insertion order
+        items = list(cfg["node"].items())
+        rng.shuffle(items)
+        cfg["node"] = dict(items)
     if rng.random() < 0.4:
         cfg["cluster"]["default"].update(pick(rng, CLUSTER_POOL))
     groups = sorted(set(c.get("group", "") for c in desc["comps"]) - {"", "default"})
